@@ -428,9 +428,12 @@ fn s8_case(line: &str) -> Vec<String> {
         let mut u = arbitrary::Unstructured::new(&empty);
         let mut src = GenerationSource::Arbitrary(&mut u);
         pf::verif::begin(&mut g, &mut src);
+        // `fill=1`: containers and objects with mixed contents - decisions must depend on the kinds of the slots only
+        let filled = m.get("fill").map(|s| s == "1").unwrap_or(false);
         if m["stack"] != "-" {
             for k in m["stack"].chars() {
-                assert!(pf::verif::push_kind(&mut g, k), "kind {}", k);
+                let ok = if filled { pf::verif::push_filled(&mut g, k) } else { pf::verif::push_kind(&mut g, k) };
+                assert!(ok, "kind {}", k);
             }
         }
         if m["memo"] != "-" {
@@ -445,6 +448,16 @@ fn s8_case(line: &str) -> Vec<String> {
         let g0 = build();
         let valid = pf::verif::valid_opcodes(&g0);
         out.push(format!("VALID {}", if valid.is_empty() { "-".to_string() } else { valid.join(",") }));
+        // the same state built again and again: every construction gives the hash containers inside the objects fresh
+        // SipHash keys and the cells fresh addresses, so a decision that iterates one of them shows as a changing candidate set
+        for _ in 0..m.get("rebuild").and_then(|s| s.parse::<usize>().ok()).unwrap_or(0) {
+            let g1 = build();
+            let v1 = pf::verif::valid_opcodes(&g1);
+            if v1 != valid {
+                out.push(format!("NONDET {} | {}", valid.join(","), v1.join(",")));
+                break;
+            }
+        }
     }
     if m["ops"] != "-" {
         for op in m["ops"].split(',') {
